@@ -46,7 +46,7 @@ mod k {
         let r = parse_dns_route("dns-routes", &y);
         match k {
             // `- {}`: a route for no suffix, forwarded to nobody
-            KIND_HASH_EMPTY => assert!(matches!(&r, Ok(Some(Route { suffixes, dest: Handler::Forward(v) })) if suffixes.is_empty() && v.is_empty()), "parse_dns_route: {} is an empty forward route"),
+            KIND_HASH_EMPTY => assert!(matches!(&r, Ok(Some(Route { suffixes, dest: Handler::Forward(v) })) if suffixes.is_empty() && v.is_empty()), "parse_dns_route: the empty mapping is an empty forward route"),
             // a non-mapping entry is reported as 'null entry' by the caller
             _ => assert!(matches!(r, Ok(None)), "parse_dns_route: a non-mapping is None"),
         }
@@ -55,7 +55,7 @@ mod k {
         match k {
             KIND_NULL => assert!(matches!(r, Ok(None)), "dns-routes: ~ is None"),
             KIND_ARR_EMPTY => assert!(matches!(&r, Ok(Some(v)) if v.is_empty()), "dns-routes: [] is no routes"),
-            KIND_ARR_HASH_EMPTY => assert!(matches!(&r, Ok(Some(v)) if v.len() == 1), "dns-routes: [{}] is one route"),
+            KIND_ARR_HASH_EMPTY => assert!(matches!(&r, Ok(Some(v)) if v.len() == 1), "dns-routes: a list of one empty mapping is one route"),
             _ => assert!(is_invalid_config(&r), "dns-routes refuses non-lists and non-mapping entries with InvalidConfig"),
         }
         std::mem::forget(r);
@@ -69,7 +69,7 @@ mod k {
     #[kani::stub(std::hash::RandomState::new, fixed_random_state)]
     fn c19_dns_routes_wrong_type() {
         let k: u8 = kani::any();
-        kani::cover!(k == 11, "[{}]");
+        kani::cover!(k == 11, "a list of one empty mapping");
         kani::cover!(k == 12, "[[]]");
         kani::cover!(k == 2, "string");
         match k {
